@@ -169,6 +169,13 @@ def check(case):
             back = RaggedArray.from_numpy_array(expm.copy())
             if np.asarray(back.lengths).tolist() != lengths or not same(back.ravel(), flat, dt) or back.dtype != np.dtype(dt):
                 return bad("from_numpy_array", [r.tolist() for r in rows], back.tolist())
+            # the rows of the converted array are reachable like those of any other array
+            for k in range(n):
+                if not same(back[k], rows[k], dt):
+                    return bad("from_numpy_array:row", rows[k].tolist(), np.asarray(back[k]).tolist())
+            rev = RaggedArray.from_numpy_array(expm.copy())[::-1]
+            if not all(same(a, b, dt) for a, b in zip(list(rev), rows[::-1])) or len(rev) != n:
+                return bad("from_numpy_array:reversed", [r.tolist() for r in rows[::-1]], rev.tolist())
         if case.get("io"):
             d = tempfile.mkdtemp(prefix="vfc01_")
             fn = os.path.join(d, "ra.npz")
